@@ -93,6 +93,13 @@ Theorem C19_facts : facts_ok fn_names shape_read shape_write raw_io io_sites ctx
 Proof. exact facts_hold. Qed.
 Print Assumptions C19_facts.
 
+(* ... and in the caller packages server/, client/, ccb/ every call that reaches
+   stream I/O hands down the caller's context (a context.WithoutCancel / Background
+   substitution anywhere between an exported entry point and the stream fails here). *)
+Theorem C19_facts_callers : callers_ok fn_names ctx_inits caller_sites = true.
+Proof. exact facts_callers. Qed.
+Print Assumptions C19_facts_callers.
+
 Theorem C19_facts_sites : forall s, In s io_sites ->
   ctx_ok ctx_inits (s_ctx s) = true /\ err_ok (s_err s) = true.
 Proof. exact facts_sites. Qed.
